@@ -24,8 +24,12 @@ def jkind(t):
     return "s"
 
 
-def mods_table(module):
-    return "0,%s,%s,%s" % (module.name, module.prefix, module.ns)
+def mods_table(module, extra=()):
+    """extra: (name, prefix, namespace) of further modules that only contribute annotations"""
+    rows = ["0,%s,%s,%s" % (module.name, module.prefix, module.ns)]
+    for k, (nm, pf, ns) in enumerate(extra):
+        rows.append("%d,%s,%s,%s" % (k + 1, nm, pf, ns))
+    return ";".join(rows)
 
 
 def jkinds(module):
